@@ -15,6 +15,13 @@ func vhNewGeneration(co coordinator) *Generation {
 		log: func(func(Logger)) {}, logError: func(func(Logger)) {}}
 }
 
+// vhSettle lets every coroutine run until nothing moves any more (a few rounds: one event can cascade).
+func vhSettle() {
+	for i := 0; i < 4; i++ {
+		vhRunAll()
+	}
+}
+
 func vhChanClosed(ch chan struct{}) bool {
 	select {
 	case <-ch:
@@ -48,7 +55,7 @@ func VH_C15_StartClose(nFuncs, event int) {
 	for i := 0; i < nFuncs; i++ {
 		g.Start(mk(i))
 	}
-	vhRunAll() // every function runs up to its select
+	vhSettle() // every function runs up to its select
 	for i := 0; i < nFuncs; i++ {
 		vhAssert(started[i], "started-function-runs")
 		vhAssert(!exited[i], "function-context-not-cancelled-while-generation-lives")
@@ -76,15 +83,15 @@ func VH_C15_StartClose(nFuncs, event int) {
 		doClose()
 	case 2:
 		close(quit[vhChoose("who_exits", nFuncs)])
-		vhRunAll()
+		vhSettle()
 		doClose()
 	case 3:
 		doClose()
-		vhRunAll()
+		vhSettle()
 		g.Start(mk(nFuncs)) // a function started after the generation ended
 	}
-	vhRunAll()
-	vhRunAll()
+	vhSettle()
+	vhSettle()
 
 	// any function exit or close ends the generation: done closed, every function's context cancelled, all exit
 	vhAssert(g.closed, "generation-marked-closed")
@@ -111,22 +118,33 @@ func VH_C15_Heartbeat(ticks int) {
 	vhConcreteClock(true)
 	co := &vhCoordinator{}
 	failAt := vhChoose("heartbeat_fails_at", ticks+1) // 0 = never
+	kind := vhChoose("heartbeat_error_kind", 4)
 	co.heartbeatErr = func(call int) error {
 		if call == failAt {
-			return RebalanceInProgress
+			// any heartbeat failure ends the generation: rebalance signals, coordinator moves (temporary
+			// errors included) and connection-level errors alike
+			switch kind {
+			case 0:
+				return RebalanceInProgress
+			case 1:
+				return NotCoordinatorForGroup
+			case 2:
+				return RequestTimedOut
+			}
+			return vhErrCoordinator
 		}
 		return nil
 	}
 	g := vhNewGeneration(co)
 	g.heartbeatLoop(time.Second)
-	vhRunAll()
+	vhSettle()
 	sent := 0
 	for k := 1; k <= ticks; k++ {
 		alive := !vhChanClosed(g.done)
 		if !vhFireNext() {
 			break
 		}
-		vhRunAll()
+		vhSettle()
 		if alive {
 			sent++
 			vhAssert(co.heartbeats == sent, "one-heartbeat-per-tick-while-alive")
@@ -151,13 +169,13 @@ func VH_C15_PartitionWatcher() {
 	co := &vhCoordinator{parts: []Partition{{ID: 0}, {ID: 1}}}
 	g := vhNewGeneration(co)
 	g.partitionWatcher(time.Second, "t")
-	vhRunAll()
+	vhSettle()
 	vhFireNext()
-	vhRunAll()
+	vhSettle()
 	vhAssert(!vhChanClosed(g.done), "same-partition-count-keeps-the-generation")
 	co.parts = append(co.parts, Partition{ID: 2})
 	vhFireNext()
-	vhRunAll()
+	vhSettle()
 	vhAssert(vhChanClosed(g.done), "partition-count-change-ends-the-generation")
 	g.close()
 	vhReach("c15-partition-watcher")
